@@ -167,18 +167,15 @@ func compileMapKey(typ *runtime.Type, structName, fieldName string, structTypeTo
 	if err != nil {
 		return nil, err
 	}
-	for {
-		switch t := dec.(type) {
-		case *stringDecoder, *interfaceDecoder:
-			return dec, nil
-		case *boolDecoder, *intDecoder, *uintDecoder, *numberDecoder:
-			return newWrappedStringDecoder(typ, dec, structName, fieldName), nil
-		case *ptrDecoder:
-			dec = t.dec
-		default:
-			return newInvalidDecoder(typ, structName, fieldName), nil
-		}
+	switch dec.(type) {
+	case *stringDecoder, *interfaceDecoder:
+		return dec, nil
+	case *boolDecoder, *intDecoder, *uintDecoder, *numberDecoder:
+		return newWrappedStringDecoder(typ, dec, structName, fieldName), nil
 	}
+	// a pointer key (other than a TextUnmarshaler) is not a valid map key: what it points to
+	// must not be decoded into the pointer's own slot
+	return newInvalidDecoder(typ, structName, fieldName), nil
 }
 
 func compilePtr(typ *runtime.Type, structName, fieldName string, structTypeToDecoder map[uintptr]Decoder) (Decoder, error) {
